@@ -275,6 +275,7 @@ type Ctl struct {
 	Curve *SchedCurve
 	Loop  *recLoop
 	wlogN int
+	raced bool
 }
 
 func NewCtl(rec *Recorder, spec FanSpec, pwm0, mode0 int, avg0 float64) *Ctl {
@@ -399,6 +400,34 @@ func (c *Ctl) metrics() map[string]int {
 	return out
 }
 
+// CycleRaced: like Cycle, but the firmware takes the fan back to automatic mode (2) in the middle of the cycle - right after
+// fan2go's write of the control mode, before its read-back. The cycle is recorded with "raced": it is exempt from the
+// per-cycle guarantees, the NEXT (undisturbed) cycle must bring the fan back to manual mode.
+func (c *Ctl) CycleRaced(cv int, dt int) (int, error) {
+	if c.Spec.Kind != "hwmon" || !c.Spec.HasMode {
+		return c.Cycle(cv, dt)
+	}
+	c.Env.mu.Lock()
+	armed := true
+	c.Env.OnRead = func(e *Env, name string) (int, error, bool) {
+		if name == "mode" && armed {
+			armed = false
+			e.vals[e.paths["mode"]] = 2
+			return 2, nil, true
+		}
+		return 0, nil, false
+	}
+	c.Env.mu.Unlock()
+	c.raced = true
+	defer func() {
+		c.raced = false
+		c.Env.mu.Lock()
+		c.Env.OnRead = nil
+		c.Env.mu.Unlock()
+	}()
+	return c.Cycle(cv, dt)
+}
+
 // Cycle performs one UpdateFanSpeed with the given curve value and records it.
 // dt is the (virtual) time in ms the driver let pass since the previous cycle (logged only).
 func (c *Ctl) Cycle(cv int, dt int) (req int, cerr error) {
@@ -421,7 +450,7 @@ func (c *Ctl) Cycle(cv int, dt int) (req int, cerr error) {
 		req = -1
 	}
 	ev := Ev{
-		"ev": "Cycle", "cv": cv, "dt": dt,
+		"ev": "Cycle", "cv": cv, "dt": dt, "raced": c.raced,
 		"lt": c.Loop.target, "lc": c.Loop.current, "lo": c.Loop.out, "lcalls": c.Loop.calls - calls,
 		"req": req, "last": st.LastSetPwm, "err": cerr != nil,
 		"wrote": wrote, "nw": len(writes), "mw": modeWrites,
